@@ -60,9 +60,9 @@ Definition exec_good {A} (st : A -> state -> res (outcome * state)) : Prop :=
   forall s σ o σ', wf σ -> st s σ = OK (o, σ') ->
     ext WLG σ σ' /\ wf σ' /\ (forall l d, o = OVal l d -> l < length (heap σ')).
 
-Definition call_good (cl : sub -> list nat -> state -> res (option nat * state)) : Prop :=
+Definition call_good (cl : sub -> list nat -> state -> res (cres * state)) : Prop :=
   forall sb args σ r σ', wf σ -> cl sb args σ = OK (r, σ') ->
-    ext WGlob σ σ' /\ groups σ' = groups σ /\ wf σ' /\ (forall l, r = Some l -> l < length (heap σ')).
+    ext WGlob σ σ' /\ groups σ' = groups σ /\ wf σ' /\ (forall l, r = CVal l -> l < length (heap σ')).
 
 (* ---- allocation *)
 Lemma alloc_good w v σ l σ' :
@@ -86,6 +86,7 @@ Proof.
   - destruct (lookup k (globals σ)) eqn:E; inversion H; subst.
     splits; auto using ext_refl. destruct W as [W1 _]. apply (W1 (NGlobal k)); auto.
     all: destruct W; auto.
+  - destruct (alloc_good WNone _ _ _ _ W H) as (A & B & C & D & _). auto.
   - destruct (alloc_good WNone _ _ _ _ W H) as (A & B & C & D & _). auto.
   - destruct (nth_error (groups σ) j) eqn:E; inversion H; subst.
     + splits; auto using ext_refl. destruct W as [W1 _]. apply (W1 (NGroup j)); auto.
@@ -158,6 +159,7 @@ Proof.
     assert (E0 : ext WLG σ s0) by (eapply ext_trans; [apply ext_snap | exact E1]).
     destruct o0.
     + destruct (IH _ _ _ W1 H) as (E2 & W2 & L2). splits; auto. eapply ext_trans; eauto.
+    + inversion H; subst. auto.
     + inversion H; subst. auto.
     + inversion H; subst. auto.
 Qed.
@@ -262,6 +264,72 @@ Proof.
     - constructor; simpl; auto; try discriminate. intros; unfold cell_eq; auto.
     - eapply wf_same; eauto. }
   destruct v; auto. destruct notset; auto.
+Qed.
+
+(* ---- switch *)
+Lemma case_test_good t ctl σ m σ' :
+  wf σ -> case_test Os t ctl σ = OK (m, σ') -> ext WLG σ σ' /\ wf σ'.
+Proof.
+  intros W H. destruct t; simpl in H.
+  - inversion H; subst. auto using ext_refl.
+  - bind_inv H as r Hr. destruct r; try discriminate. inversion H; subst.
+    split; [apply ext_grow | apply wf_grow; auto].
+  - destruct (re_match Os p ctl); inversion H; subst; auto using ext_refl, ext_set_caps, wf_set_caps.
+Qed.
+
+Lemma sw_from_good rb : exec_good rb -> exec_good (sw_from rb).
+Proof.
+  intros G cs. induction cs as [|[[t body] ft] r IH]; intros σ o σ' W H; simpl in H; [discriminate|].
+  bind_inv H as [o1 σ1] H1.
+  destruct (G _ _ _ _ W H1) as (E1 & W1 & L1).
+  destruct o1; try (inversion H; subst; auto; fail).
+  destruct ft.
+  - destruct (IH _ _ _ W1 H) as (E2 & W2 & L2). splits; auto. eapply ext_trans; eauto.
+  - inversion H; subst. auto.
+Qed.
+
+Lemma sw_try_good rb ctl d : exec_good rb -> forall cs i σ r σ',
+  wf σ -> sw_try Os rb ctl d i cs σ = OK (r, σ') ->
+  ext WLG σ σ' /\ wf σ' /\ (forall o l b, r = Some o -> o = OVal l b -> l < length (heap σ')).
+Proof.
+  intros G. induction cs as [|[[t body] ft] rest IH]; intros i σ r σ' W H; simpl in H.
+  - inversion H; subst. splits; auto using ext_refl. discriminate.
+  - destruct (is_dflt d i); [eapply IH; eauto|].
+    bind_inv H as [m σ1] H1.
+    destruct (case_test_good _ _ _ _ _ W H1) as (E1 & W1).
+    destruct m.
+    + bind_inv H as [o σ2] H2. inversion H; subst.
+      destruct (sw_from_good _ G ((t, body, ft) :: rest) _ _ _ W1 H2) as (E2 & W2 & L2).
+      splits; auto. eapply ext_trans; eauto.
+      intros o0 l b Ho Hv. inversion Ho; subst. eapply L2; eauto.
+    + destruct (IH _ _ _ _ W1 H) as (E2 & W2 & L2). splits; auto. eapply ext_trans; eauto.
+Qed.
+
+Lemma sw_nth_good rb : exec_good rb -> forall cs n σ o σ',
+  wf σ -> sw_nth rb n cs σ = OK (o, σ') ->
+  ext WLG σ σ' /\ wf σ' /\ (forall l d, o = OVal l d -> l < length (heap σ')).
+Proof.
+  intros G. induction cs as [|c rest IH]; intros n σ o σ' W H; destruct n; try discriminate.
+  - exact (sw_from_good _ G (c :: rest) σ o σ' W H).
+  - eapply IH; eauto.
+Qed.
+
+Lemma set_hdrs_good x σ : wf σ -> ext WLG σ (set_hdrs x σ) /\ wf (set_hdrs x σ).
+Proof.
+  intros W. split.
+  - constructor; simpl; auto; try discriminate. intros; unfold cell_eq; auto.
+  - eapply wf_same; eauto.
+Qed.
+
+Lemma store_field_good o h k v σ :
+  wf σ -> ext WLG σ (store_field Os o h k v σ) /\ wf (store_field Os o h k v σ).
+Proof. intros W. unfold store_field. apply set_hdrs_good; auto. Qed.
+
+Lemma unset_field_good o h k σ :
+  wf σ -> ext WLG σ (unset_field_of o h k σ) /\ wf (unset_field_of o h k σ).
+Proof.
+  intros W. unfold unset_field_of.
+  destruct (HdrField.unset_field (hdr_text σ o h) (key_text k)); apply set_hdrs_good; auto.
 Qed.
 
 End Inv.
